@@ -186,6 +186,8 @@ def op_line(op: list) -> str:
         return "writeback"
     if k == "raw":
         return op[1]
+    if k == "persist":  # C19: the store object is replaced by one restored from its serialized payload (harness/c19_hist.py)
+        return f"persist|{op[1]}"
     return "?"
 
 
@@ -339,6 +341,7 @@ class Real:
         self.store = store
         self.kind = kind
         self.held: Any = None      # the object get_state returned (top-level mutations go here ...)
+        self.env: Any = None       # C19 `persist` ops: the SqlEnv a SQLite store lives in (set by the caller)
         self.held_val: Any = None  # ... and to this deep copy of it, which is what gets written back:
         #                            in memory the *nested* values of a snapshot are shared with the
         #                            store (shallow copy, as documented); the property is about the top level
@@ -384,6 +387,10 @@ class Real:
                 h, self.held, self.held_val = self.held_val, None, None
                 await s.set_state(h)
                 return "none"
+            if k == "persist":
+                from .c19_hist import persist_real
+
+                return await persist_real(self, op[1])
             return "bad-op"
         except Exception as e:  # noqa: BLE001 - the class name is the observation
             return err_name(e)
@@ -525,6 +532,8 @@ class PySpec:
             if self.held is None:
                 return "no-snapshot"
             self.data, self.held = self.held, None
+            return "none"
+        if k == "persist":  # a persistence round trip changes nothing
             return "none"
         return "bad-op"
 
